@@ -13,15 +13,20 @@ ASSUMPTIONS = [
 RX = re.compile(rb"^ZCZC-[A-Za-z]{3}-[A-Za-z]{3}(-[0-9]{6})+(\+[0-9]{4}-[0-9]{7}-.{3,8}-)")
 
 
+# the event codes reserved for national use (NWSI 10-1712 / crate docs: EAN, NIC, NAT, NPT, NST)
+NATIONAL_CODES = (b"EAN", b"NIC", b"NAT", b"NPT", b"NST")
+
+
 def fields(text, ot, parity=0, voting=0):
     org, evt = text[5:8], text[9:12]
     locs = text[13:ot].split(b"-")
     tttt = text[ot + 1:ot + 5]
     jjj = text[ot + 6:ot + 13]
     call = text[ot + 14:len(text) - 1]
-    return "%s %d %d org=%s evt=%s locs=%s dur=%d:%d iss=%d:%d:%d call=%s" % (
+    nat = 1 if (locs == [b"000000"] and evt in NATIONAL_CODES) else 0
+    return "%s %d %d org=%s evt=%s locs=%s dur=%d:%d iss=%d:%d:%d call=%s nat=%d" % (
         hx(text), parity, voting, hx(org), hx(evt), ",".join(hx(l) for l in locs),
-        int(tttt[:2]), int(tttt[2:]), int(jjj[:3]), int(jjj[3:5]), int(jjj[5:7]), hx(call))
+        int(tttt[:2]), int(tttt[2:]), int(jjj[:3]), int(jjj[3:5]), int(jjj[5:7]), hx(call), nat)
 
 
 def oracle_hdr(s, errs=None, counts=None):
@@ -104,6 +109,10 @@ def run(ctx):
         chars = rng.choice([samegen.CALL_CHARS, any_ascii, b"-/AB", b"\nAB-"])
         nloc = rng.choice([None, None, 31, 32, 40, 1])
         h = samegen.gen_header(rng, nloc=nloc, call_chars=chars, trailing=trailing)
+        if rng.chance(1, 8):
+            # national-activation shapes: location 000000, national / non-national events
+            evt = rng.choice([b"EAN", b"NIC", b"NAT", b"NPT", b"NST", b"RWT", b"TOR", b"EAn"])
+            h = h[:9] + evt + b"-000000" + (h[h.index(b"+"):] if rng.chance(3, 4) else b"-000000" + h[h.index(b"+"):])
         add("grammar", "hdr " + hx(h), oracle_hdr(h))
         add("grammar-msg", "msgstr " + hx(h), oracle_msg(h))
     # 2. complete one-edit neighbourhoods of seed headers
